@@ -17,6 +17,7 @@ import numpy as np
 
 from . import common as C
 from . import gen as G
+from . import wp4 as W
 
 PROP = "C18"
 MODULE = "MCHap.Properties.C18"
@@ -57,6 +58,7 @@ RULE = ("cases: generated pedigrees (founder, clone founder, duo with unknown pa
         "target has a parent or a child in the pedigree and >= 2 haplotypes. Distinct by request line.")
 
 ERRORS = [0.01, 0.1, 0.5, 1.0]
+LAMBDAS = [0.1, 0.5, 0.5, 1.0]
 
 
 # ----------------------------------------------------------------------------- pedigree generator
@@ -90,22 +92,17 @@ def templates():
         "pair+selfed": dict(parent=[[U, U], [U, U], [0, 1], [0, 0]], tau=[[1, 1]] * 4),
         "backcross": dict(parent=[[U, U], [U, U], [0, 1], [0, 2]], tau=[[1, 1]] * 4),
         "backcross4x+duo": dict(parent=[[U, U], [U, U], [0, 1], [2, 0], [2, U]], tau=[[2, 2]] * 5),
+        # individuals that come from an unbalanced / clonal / triploid / unreduced edge and are parents themselves
+        "triploid-parent": dict(parent=[[U, U], [U, U], [0, 1], [2, U]], tau=[[1, 1], [2, 2], [1, 2], [1, 1]]),
+        "triploid-parent-3x": dict(parent=[[U, U], [U, U], [0, 1], [2, U], [1, 2]], tau=[[1, 1], [2, 2], [1, 2], [2, 1], [2, 1]]),
+        "unbalanced-parent": dict(parent=[[U, U], [U, U], [0, 1], [2, 1]], tau=[[2, 2], [2, 2], [1, 3], [2, 2]]),
+        "unbalanced-31-parent": dict(parent=[[U, U], [U, U], [0, 1], [U, 2]], tau=[[2, 2], [1, 1], [3, 1], [2, 2]]),
+        "clone-of-known": dict(parent=[[U, U], [0, U]], tau=[[2, 2], [4, 0]]),
+        "clone-chain": dict(parent=[[U, U], [0, U], [1, U], [1, 0]], tau=[[2, 2], [4, 0], [2, 2], [2, 2]]),
+        "clonal-edge-parent": dict(parent=[[U, U], [U, U], [0, 1], [2, U], [U, 2]], tau=[[2, 2], [1, 1], [2, 0], [1, 1], [1, 1]]),
+        "unreduced-2x": dict(parent=[[U, U], [U, U], [0, 1], [2, 0]], tau=[[1, 1], [2, 2], [2, 2], [2, 1]]),
+        "unreduced-both": dict(parent=[[U, U], [U, U], [0, 1], [2, 2]], tau=[[1, 1], [1, 1], [2, 2], [2, 2]]),
     }
-
-
-def random_template(r):
-    """a random pedigree: every individual draws each parent among the earlier individuals or 'unknown'"""
-    U = -1
-    N = r.randint(3, 6)
-    t = r.choice([1, 1, 2])
-    parent = []
-    for i in range(N):
-        if i < 2 and r.random() < 0.8:
-            parent.append([U, U])
-            continue
-        pq = [r.choice([U] + list(range(i))) if r.random() < 0.8 else U for _ in range(2)]
-        parent.append(pq)
-    return dict(parent=parent, tau=[[t, t]] * N)
 
 
 def draw_gamete(r, g, tau, n, lam):
@@ -120,22 +117,38 @@ def draw_gamete(r, g, tau, n, lam):
     return r.sample(g, tau)
 
 
-def gen_pedigree(r, name=None):
+def typed_cache():
+    """the likelihood cache as mcmc_sampler builds it: dict (sample, genotype index) -> float with the (-1, -1) seed entry"""
+    from numba import types
+    from numba.typed import Dict
+    d = Dict.empty(key_type=types.UniTuple(types.int64, 2), value_type=types.float64)
+    d[(-1, -1)] = np.nan
+    return d
+
+
+def gen_pedigree(r, name=None, directed=False):
     T = templates()
-    if name is None and r.random() < 0.25:
+    lam = None
+    if name is None and r.random() < 0.3:
         name = "random"
-        t = random_template(r)
+        S = W.gen_structure(r, uniform=r.random() < 0.15, n_min=3)      # per-individual ploidy / tau, generation order
+        parents, tau, lam = S["parents"].copy(), S["tau"].copy(), S["lam"].copy()
     else:
         name = name or r.choice(sorted(T))
         t = T[name]
-    parents = np.array(t["parent"], dtype=np.int64)
-    tau = np.array(t["tau"], dtype=np.int64)
+        parents = np.array(t["parent"], dtype=np.int64)
+        tau = np.array(t["tau"], dtype=np.int64)
     N = len(parents)
     ploidy = tau.sum(axis=1)
     mp = int(ploidy.max())
     n_base = r.randint(1, 3)
-    n_all = G.gen_n_alleles(r, n_base, multi=False)
-    n_haps = r.choice([2, 3, 3, 4]) if n_base > 1 else 2
+    n_all = G.gen_n_alleles(r, n_base, multi=r.random() < 0.3)
+    cap = 1
+    for a in n_all:
+        cap *= a
+    n_haps = r.choice([2, 3, 3, 4]) if cap > 2 else 2
+    if not directed and r.random() < 0.05:
+        n_haps = 1                                                      # a locus with a single known haplotype
     seen, haps = set(), []
     for _ in range(40):
         h = tuple(G.gen_haplotype(r, n_all))
@@ -144,19 +157,32 @@ def gen_pedigree(r, name=None):
         if len(haps) == n_haps:
             break
     n = len(haps)
-    lam = np.zeros((N, 2))
-    for i in range(N):
-        for j in range(2):
-            if tau[i, j] == 2 and r.random() < 0.5:
-                lam[i, j] = r.choice([0.1, 0.5])
+    if lam is None:
+        lam = np.zeros((N, 2))
+        for i in range(N):
+            for j in range(2):
+                if tau[i, j] == 2 and r.random() < 0.5:
+                    lam[i, j] = r.choice(LAMBDAS)
     if r.random() < 0.5:
         err = np.full((N, 2), r.choice(ERRORS))
     else:
         err = np.array([[r.choice(ERRORS) for _ in range(2)] for _ in range(N)])
     zero_err = r.random() < 0.2
+    some_zero = (not zero_err) and r.random() < 0.3                     # exactly one edge of a trio certain, or a few edges
+    if some_zero:
+        known = [(i, j) for i in range(N) for j in range(2) if parents[i, j] >= 0]
+        if known:
+            i, j = r.choice(known)
+            err[i, j] = 0.0
+            if err[i, 1 - j] == err[i, j]:
+                err[i, 1 - j] = r.choice([0.01, 0.1, 0.5])
+            for (i2, j2) in known:
+                if r.random() < 0.2:
+                    err[i2, j2] = 0.0
     # state: founders random, children from gametes, with occasional incongruent slots
-    state = np.full((N, mp), -2, dtype=np.int64)
-    noisy = (not zero_err) and r.random() < 0.5
+    pad, dt = r.choice([(-2, np.int64), (-1, np.int16)])                # production: int16, padded with -1
+    state = np.full((N, mp), pad, dtype=dt)
+    noisy = (not zero_err) and r.random() < (0.15 if some_zero else 0.5)
     for i in range(N):
         g = []
         for j in range(2):
@@ -179,25 +205,45 @@ def gen_pedigree(r, name=None):
     else:
         v = np.array([r.random() + 0.1 for _ in range(n)]); freqs = v / v.sum()
     # reads
-    n_reads = r.choice([1, 2, 3, 4])
+    n_reads = r.choice([0, 1, 1, 2, 2, 3, 3, 4, 4, 4]) if not directed else r.choice([1, 2, 3, 4])
     mx = max(n_all)
     reads = np.full((N, n_reads, n_base, mx), np.nan)
     counts = np.ones((N, n_reads), dtype=np.int64)
-    informative = r.random() < 0.6
+    informative = n_reads > 0 and r.random() < 0.6
+    no_reads = []
     if informative:
         for i in range(N):
             truth = [haps[a] for a in state[i, :ploidy[i]]]
             rd, ct = G.gen_reads(r, n_all, n_reads, haps=truth, gap=0.2, style=r.choice(["encoded", "encoded", "free"]),
                                  zero_counts=True)
             reads[i] = rd; counts[i] = ct
-    return dict(name=name, parents=parents, tau=tau, ploidy=ploidy, lam=lam, err=err, state=state, haps=np.array(haps, dtype=np.int64),
-                freqs=freqs, reads=reads, counts=counts, informative=informative, n=n, N=N, mp=mp, zero_err=zero_err)
+            if not directed and r.random() < 0.15:                      # a pedigree member without alignment file: NaN rows, count 0
+                reads[i] = np.nan; counts[i] = 0; no_reads.append(i)
+    permuted = False
+    if not directed and N > 1 and r.random() < 0.4:                    # children may precede their parents
+        perm = list(range(N)); r.shuffle(perm)                          # new index of old i
+        inv = [0] * N
+        for old, new in enumerate(perm):
+            inv[new] = old
+        permuted = perm != list(range(N))
+        par2 = parents[inv].copy()
+        for i in range(N):
+            for j in range(2):
+                if par2[i, j] >= 0:
+                    par2[i, j] = perm[par2[i, j]]
+        parents, tau, ploidy, lam, err, state, reads, counts = (par2, tau[inv], ploidy[inv], lam[inv], err[inv], state[inv],
+                                                                reads[inv], counts[inv])
+    return dict(name=name, parents=np.ascontiguousarray(parents), tau=np.ascontiguousarray(tau), ploidy=np.ascontiguousarray(ploidy),
+                lam=np.ascontiguousarray(lam), err=np.ascontiguousarray(err), state=np.ascontiguousarray(state),
+                haps=np.array(haps, dtype=np.int64), freqs=freqs, reads=np.ascontiguousarray(reads), counts=np.ascontiguousarray(counts),
+                informative=informative, n=n, N=N, mp=mp, zero_err=zero_err, some_zero=some_zero, permuted=permuted,
+                cache=typed_cache() if r.random() < 0.5 else None, multi=max(n_all) > 2, n_reads=n_reads)
 
 
 def directed_hexaploid(r):
     """hexaploid trio, tau (3,3), positive errors: the candidate genotype 0,0,0,0,1,2 makes the complementary gamete of q
     hold three copies of an allele q carries once (boundary stream)"""
-    P = gen_pedigree(r, "trio6x")
+    P = gen_pedigree(r, "trio6x", directed=True)
     n_base = P["haps"].shape[1]
     if P["n"] < 3:
         return None
@@ -242,8 +288,11 @@ def fact_prod(g):
 
 
 class _Rand:
-    def __init__(self, draws):
+    def __init__(self, draws, u=2.0, perm=None):
         self.draws = list(draws)
+        self.u = u
+        self.perm = perm
+        self.shuffled = 0
 
     def randint(self, n):
         v = self.draws.pop(0)
@@ -251,13 +300,17 @@ class _Rand:
         return v
 
     def rand(self):
-        return 2.0          # never accept: the state is left as it was
+        return self.u       # 2.0: never accept (the state is left as it was); 0.0: accept whenever prob_accept > 0
+
+    def shuffle(self, x):
+        self.shuffled += 1
+        x[:] = x[self.perm] if self.perm is not None else x[::-1].copy()
 
 
 class _NP:
-    def __init__(self, real, draws):
+    def __init__(self, real, draws, u=2.0, perm=None):
         self._real = real
-        self.random = _Rand(draws)
+        self.random = _Rand(draws, u, perm)
 
     def __getattr__(self, k):
         return getattr(self._real, k)
@@ -280,6 +333,7 @@ def run(tier, replay=None):
     chk.prove()
     drv = C.Driver(EXE)
     r = C.rng(PROP)
+    rs = C.rng(PROP + ":draws")
     n_ped = {"warm": 3, "quick": 400, "thorough": 3000}[tier]
     names = sorted(templates())
 
@@ -305,7 +359,7 @@ def run(tier, replay=None):
         st = st.copy()
         try:
             v = f(t, k, st, P["ploidy"], P["parents"], P["children"], P["tau"], P["lam"], P["err"], P["reads"], P["counts"],
-                  P["haps"], logf_of(P), None, **scratch(P["mp"]))
+                  P["haps"], logf_of(P), P["cache"], **scratch(P["mp"]))
         except (AssertionError, ValueError, ZeroDivisionError):
             return "err", st
         return [float(x) for x in v], st
@@ -378,6 +432,19 @@ def run(tier, replay=None):
                 "read_counts": P["counts"].tolist(),
                 "reads": [[[[None if math.isnan(x) else x for x in row] for row in rd] for rd in s] for s in P["reads"].tolist()]}
         chk.count("ped=" + P["name"]); chk.count(op); chk.count("reads=" + ("informative" if P["informative"] else "nan"))
+        chk.count("state=%s/pad%d" % (st.dtype.name, -1 if st.dtype == np.int16 else -2)); chk.count("cache=" + ("dict" if P["cache"] is not None else "None"))
+        if P["permuted"]:
+            chk.count("indices-permuted")
+        if P["n"] == 1:
+            chk.count("n_haps=1")
+        if P["n_reads"] == 0:
+            chk.count("n_reads=0")
+        if P["multi"]:
+            chk.count("multi-allelic-snv")
+        if (P["lam"] == 1.0).any():
+            chk.count("lambda=1-edge")
+        if P["some_zero"]:
+            chk.count("error:some-edges-zero")
         if op == "children":
             impl = "|".join(" ".join(str(int(x)) for x in row) for row in P["children"])
             chk.case(line, P["N"] > 1)
@@ -397,7 +464,7 @@ def run(tier, replay=None):
             chk.count("target-tau=" + ("balanced" if tp_ == tq_ else "unbalanced"))
             if pi % 7 == 0:
                 ipy, _ = call_probs(f.py_func, P, st, t, k)
-                if not same_vec(ipy, impl if isinstance(impl, str) else impl):
+                if not same_vec(ipy, vec_tag(impl)):
                     chk.disagreement(f"{op} jitted != py_func", {**case, "py": ipy})
             if op == "ped.gibbs":
                 parts = a.split(";")
@@ -461,12 +528,15 @@ def run(tier, replay=None):
         j, ip, iq = arg
         p, q = int(P["pairs"][j, 0]), int(P["pairs"][j, 1])
         s2 = st.copy()
+        umode = rs.choice(["reject", "accept", "uniform"])
+        u = {"reject": 2.0, "accept": 0.0}.get(umode, rs.random())
         orig_np = mcmc.np
-        mcmc.np = _NP(orig_np, [ip, iq])
+        mcmc.np = _NP(orig_np, [ip, iq], u)
+        acc = None
         try:
             try:
                 pa, acc = mcmc.pair_allele_swap_step.py_func(p, q, P["blankets"][j], s2, P["ploidy"], P["parents"], P["tau"], P["lam"],
-                                                             P["err"], P["reads"], P["counts"], P["haps"], logf_of(P), None,
+                                                             P["err"], P["reads"], P["counts"], P["haps"], logf_of(P), P["cache"],
                                                              **scratch(P["mp"]))
                 impl = "none" if (isinstance(pa, float) and math.isnan(pa)) else float(pa)
             except (AssertionError, ValueError, ZeroDivisionError):
@@ -474,10 +544,22 @@ def run(tier, replay=None):
         finally:
             mcmc.np = orig_np
         chk.case(line, P["n"] >= 2 and st[p, ip] != st[q, iq], sample={"request": line[:240], "impl": impl, "model": a})
-        case = {**base, "p": p, "q": q, "index_p": ip, "index_q": iq, "impl": impl, "model": a}
-        chk.count("swap:" + ("selfing" if p == q else "pair"))
-        if (s2 != st).any():
-            chk.violation("a rejected swap does not restore the genotypes", case, "C18/swap/restore")
+        case = {**base, "p": p, "q": q, "index_p": ip, "index_q": iq, "impl": impl, "model": a, "uniform_draw": u}
+        chk.count("swap:" + ("selfing" if p == q else "pair")); chk.count("swap:draw=" + umode)
+        swapped = st.copy(); swapped[p, ip] = st[q, iq]; swapped[q, iq] = st[p, ip]      # the two assignments of the code, in its order
+        if isinstance(impl, float):
+            want_acc = u < impl
+            chk.count("swap:" + ("accepted" if want_acc else "rejected"))
+            if bool(acc) != want_acc:
+                chk.violation("swap decision differs from (uniform draw < prob_accept)", {**case, "accept": bool(acc)}, "C18/swap/decision")
+            elif want_acc and (s2 != swapped).any():
+                chk.violation("an accepted swap does not leave the two alleles exchanged (and everything else as it was)",
+                              {**case, "after": s2.tolist()}, "C18/swap/accept-state")
+            elif not want_acc and (s2 != st).any():
+                chk.violation("a rejected swap does not restore the genotypes", {**case, "after": s2.tolist()}, "C18/swap/restore")
+        elif (s2 != st).any():
+            chk.violation("a swap step without a proposal (or one that raised) changed the genotypes", {**case, "after": s2.tolist()},
+                          "C18/swap/restore")
         if a in ("none", "err", "nan"):
             if impl != a and not (a == "nan" and isinstance(impl, float) and math.isnan(impl)):
                 chk.disagreement("pair_allele_swap_step prob_accept != model", case)
